@@ -147,6 +147,15 @@ def prop(case):
         if O.observe(g) != before or str(g) != btext:
             raise Violation("refused-changed", "%s\nthe call was refused (%s) but the graph changed:\n%s" % (ctx, type(raised).__name__, str(g)), "policy")
         return {"nt": False, "unknown_policy": "refused"}
+    bad = case.get("bad_names")
+    if bad and factor >= 2 and raised is not None:
+        # the requested names cannot be given (in use, repeated, not factor - 1 of them): the call is
+        # refused, and a refused call leaves the graph as it was
+        if not isinstance(raised, GfapyError):
+            raise Violation("raised", "%s\nraised %s: %s" % (ctx, type(raised).__name__, str(raised)[:300]), "foreign/%s/names" % type(raised).__name__)
+        if O.observe(g) != before or str(g) != btext:
+            raise Violation("refused-changed", "%s\nthe call was refused (%s) but the graph changed:\n%s" % (ctx, type(raised).__name__, str(g)), "names/" + bad)
+        return {"nt": False, "bad_names": bad}
     if raised is not None:
         cls = "gfapy" if isinstance(raised, GfapyError) else "foreign"
         raise Violation("raised", "%s\nraised %s: %s" % (ctx, type(raised).__name__, str(raised)[:300]),
@@ -403,6 +412,24 @@ def st_case(draw):
     names = None
     if factor >= 2 and gen.chance(r, 0.3):
         names = ["cp%d" % i for i in range(factor - 1)]
+    bad = None
+    if factor >= 2 and gen.fair(r, 0.08):
+        names = ["cp%d" % i for i in range(factor - 1)]
+        segs_ = [l[1][0] for l in doc["lines"] if l[0] == "S"]
+        paths_ = [l[1][0] for l in doc["lines"] if l[0] == "P"]
+        bad = gen.choice(r, ["in_use", "in_use", "in_use_path", "repeated", "short", "long"])
+        if bad == "in_use":
+            names[r.randrange(len(names))] = gen.choice(r, segs_)
+        elif bad == "in_use_path" and paths_:
+            names[r.randrange(len(names))] = gen.choice(r, paths_)
+        elif bad == "repeated" and factor >= 3:
+            names[-1] = names[0]
+        elif bad == "short":
+            names = names[:-1]
+        elif bad == "long":
+            names = names + ["cpx"]
+        else:
+            bad = None
     origin = None
     if gen.chance(r, 0.3):
         origin = gen.choice(r, [{"track_origin": True}, {"extended": True}, {"track_origin": True, "origin_tag": "og"},
@@ -414,7 +441,7 @@ def st_case(draw):
                     l[2].append([origin.get("origin_tag", "or"), "Z", "Q"])
     return {"doc": doc, "segment": target, "factor": factor, "origin": origin, "incremental": incremental,
             "distribute": gen.choice(r, [None, None, "off", "auto", "equal", "L", "R"]) if not gen.fair(r, 0.04) else gen.choice(r, ["zzz", "l", "both"]),
-            "copy_names": names,
+            "copy_names": names, "bad_names": bad,
             "by_instance": gen.chance(r, 0.3), "vlevel": gen.choice(r, [1, 1, 2, 3])}
 
 
